@@ -1,6 +1,6 @@
 SPECIFICATION Spec
 CONSTANTS
-  Fams = {"lex", "text", "control", "while", "try", "tryloop", "apply", "loader", "ws", "errors", "errors2"}
+  Fams = {"lex", "text", "control", "control4", "while", "try", "tryloop", "blockloop", "apply", "loader", "ws", "errors", "errors2"}
   Grow = 0
   SLen = 0
   Fuel = 3
